@@ -325,6 +325,9 @@ Section Rpc.
   }.
 End Rpc.
 
+Arguments ASend {W} r.
+Arguments AServe {W}.
+Arguments ARecv {W}.
 Arguments c2s {W} s.
 Arguments s2c {W} s.
 Arguments running {W} s.
@@ -529,3 +532,15 @@ Definition check_sequence (table : list coutcome) (reqs : list pyv) (observed : 
 Definition check_pipeline (table : list coutcome) (reqs : list pyv) (observed : list cobs) : bool :=
   let '(os, s) := pipeline (concrete_world table) (init (concrete_world table) 0) reqs in
   list_eqb cobs_eqb os observed.
+
+(* interleaved schedules of the correspondence run *)
+Inductive cact : Type := CSend (r : pyv) | CServe | CRecv.
+
+Definition check_schedule (table : list coutcome) (acts : list cact) (observed : list cobs) : bool :=
+  let W := concrete_world table in
+  let sch := map (fun a => match a with
+                           | CSend r => @ASend W r
+                           | CServe => AServe
+                           | CRecv => ARecv
+                           end) acts in
+  list_eqb cobs_eqb (fst (run_sched W (init W 0) sch)) observed.
